@@ -102,7 +102,7 @@ def monitor(case):
         return sm.monitor_unc(case["input"], case["impl"])
     if case.get("ambiguous"):
         return None
-    return sm.monitor_c08(case["input"], case["impl"])
+    return sm.monitor_c08(case["input"], case["impl"]) or sm.monitor_rr_trace(case["input"], case["impl"])
 
 
 def search(rng, budget_s, broken):
@@ -112,7 +112,7 @@ def search(rng, budget_s, broken):
         scn = sc.gen_scenario(rng, "quick", algo=a, sort=s, est=e, unint=u, inc=i, distinct_keys=True, user_bounds=False)
         c = mk_case(scn)
         if not c["ambiguous"]:
-            r = sm.monitor_c08(scn, c["impl"])
+            r = sm.monitor_c08(scn, c["impl"]) or sm.monitor_rr_trace(scn, c["impl"])
             if r:
                 return dict(case=scn, impl=c["impl"], why=r)
         u_ = mk_unc(sc.gen_scenario(rng, "quick"))
@@ -127,4 +127,4 @@ def replay(w):
     impl = sc.run_impl(scn)
     if scn["algo"] == "unc":
         return sm.monitor_unc(scn, impl)
-    return sm.monitor_c08(scn, impl)
+    return sm.monitor_c08(scn, impl) or sm.monitor_rr_trace(scn, impl)
